@@ -125,6 +125,17 @@ pub fn workspaces(tier: Tier, mut f: impl FnMut(LspWs) -> bool) {
                             ta.truncate(ta.trim_end_matches(['\r', '\n', ';']).len());
                             tb.push_str("def btail : B1<9");
                         }
+                        // files saved with a byte order mark (the included one is read from disk, mark and all): for
+                        // one-statement roots, b alone, a alone, both
+                        if word.len() == 1 {
+                            for bom in 1..4u8 {
+                                let mark = |on: bool, t: &String| if on { format!("{}{t}", '\u{feff}') } else { t.clone() };
+                                let ws = LspWs { files: vec![("a.td".into(), mark(bom & 2 != 0, &ta)), ("b.td".into(), mark(bom & 1 != 0, &tb)), ("c é😀.td".into(), "\u{feff}class Cx;\n".into())], client_encodings: 0 };
+                                if !f(ws) {
+                                    return;
+                                }
+                            }
+                        }
                         // the units differ on lines with non-ASCII text only: every client list there, no list elsewhere
                         for client_encodings in 0..if nonascii { CLIENT_ENCODINGS.len() } else { 1 } {
                             let ws = LspWs { files: vec![("a.td".into(), ta.clone()), ("b.td".into(), tb.clone()), ("c é😀.td".into(), "class Cx;\n".into())], client_encodings };
@@ -387,7 +398,7 @@ impl Engine for C09 {
     fn rule(&self, tier: Tier) -> String {
         format!(
             "three-file workspaces: root a.td = prologue + include \"b.td\" + include of a file whose name has a blank and non-ASCII letters + every sequence of 1..={} of {} statements that use b's declarations; b.td = a longer, differently-lined prologue + all {} declarations or all but one; \
-             x {{ASCII, 'é😀' before every statement and inside a string}} x {{LF, CRLF}} x {{a client that lists no position encodings; in the non-ASCII half also [utf-8, utf-16], [utf-16, utf-8], [utf-32, utf-16], [utf-16]}} x {{complete, or ending in an unterminated statement whose last token touches the end of the text (both files)}}; the root is opened in the real server (framed JSON-RPC over an in-memory pipe) and, one message at a time, \
+             x {{ASCII, 'é😀' before every statement and inside a string}} x {{LF, CRLF}} x {{a client that lists no position encodings; in the non-ASCII half also [utf-8, utf-16], [utf-16, utf-8], [utf-32, utf-16], [utf-16]}} x {{no byte order mark; for one-statement roots also a mark at the start of b, of a, of both (and of the third file)}} x {{complete, or ending in an unterminated statement whose last token touches the end of the text (both files)}}; the root is opened in the real server (framed JSON-RPC over an in-memory pipe) and, one message at a time, \
              definition and references at the start and middle of every identifier of both files, documentSymbol, foldingRange, documentLink, inlayHint(whole file) per file and the published diagnostics are compared (the syntax errors of each file's own text, parsed independently, must be among the diagnostics published for that file); finally the root is edited so that every byte offset stays and every line number moves, and the diagnostics the client then holds are compared again. \
              non-trivial = every workspace (each has cross-file locations); distinct by construction.",
             tier.pick(2, 3),
